@@ -356,8 +356,10 @@ def load_findings():
 
 # predicates over canonical violation descriptors (dicts). Closed set; see DESIGN.md section 3.
 def _pred_chain_longer_than_sentinel(d, args):
+    # the deviation from the ideal is the known one only if the code did exactly what the cursor machine (the model of
+    # Context.Next as written, with the real int8 / sentinel constants) predicts for that chain
     return d.get("kind") == "chain" and d.get("chain_len", 0) >= args.get("min_len", 65) and \
-        d.get("aspect") in ("enter", "probe", "log")
+        d.get("aspect") in ("enter", "probe", "log") and d.get("as_cursor_machine") is True
 
 
 PREDICATES = {
